@@ -58,6 +58,14 @@ func (c *AttrCache) ConfigureNegativeCaching(enable bool, ttl time.Duration) {
 	if ttl > 0 {
 		c.negativeTTL = ttl
 	}
+	if !enable {
+		for path, cached := range c.cache {
+			if cached.isNegative {
+				c.removeFromAccessLog(path)
+				delete(c.cache, path)
+			}
+		}
+	}
 }
 
 // Get retrieves cached attributes if they exist and are not expired.
